@@ -374,14 +374,19 @@ theorem commonUnpacker_documented (raw : Bytes) : Documented (commonUnpacker raw
 theorem FileStoreRequestTlv.fromTlv_eq (t : CfdpTlv) :
     FileStoreRequestTlv.fromTlv t =
       if t.ttype ≠ tFsRequest then .error .tlvType
-      else commonUnpacker t.value >>= fun c => .ok ⟨c.action, c.first, c.second.getD []⟩ := by
+      else commonUnpacker t.value >>= fun c =>
+        if c.idx ≠ t.value.length then .error .value
+        else .ok ⟨c.action, c.first, c.second.getD []⟩ := by
   unfold FileStoreRequestTlv.fromTlv
   by_cases h : t.ttype ≠ tFsRequest
   · simp [h, throw, throwThe, MonadExceptOf.throw, bind, Except.bind]
-  · simp only [h, ↓reduceIte, bind, Except.bind, pure, Except.pure]
+  · simp only [h, ↓reduceIte, bind, Except.bind, pure, Except.pure, throw, throwThe, MonadExceptOf.throw]
     cases commonUnpacker t.value with
     | error e => rfl
-    | ok c => cases hs : c.second <;> simp [hs]
+    | ok c =>
+      by_cases hi : c.idx ≠ t.value.length
+      · simp [hi]
+      · cases hs : c.second <;> simp [hi, hs]
 
 theorem FileStoreRequestTlv.unpack_bind (d : Bytes) :
     FileStoreRequestTlv.unpack d = CfdpTlv.unpack d >>= FileStoreRequestTlv.fromTlv := rfl
@@ -417,16 +422,39 @@ theorem FileStoreRequestTlv.pack_length (r : FileStoreRequestTlv) (b : Bytes) (h
       unfold FileStoreRequestTlv.packetLen; omega
     · rw [CfdpTlv.new_err (by omega)] at h; cases h
 
-/-- `from_tlv` on a well-formed request value (any status nibble, any trailing octets) -/
-theorem FileStoreRequestTlv.fromTlv_pack (action status : Nat) (first second tail : Bytes)
+/-- `from_tlv` on a well-formed request value followed, inside the value field, by `tail`:
+    accepted exactly when there is nothing after the names (any status nibble) -/
+theorem FileStoreRequestTlv.fromTlv_pack_tail (action status : Nat) (first second tail : Bytes)
     (ha : action ∈ actionCodes) (hs : status < 16) (h1 : first.length ≤ 255)
     (h2 : second.length ≤ 255) (u1 : utf8Valid first = true) (u2 : utf8Valid second = true) :
     FileStoreRequestTlv.fromTlv ⟨tFsRequest, fsValue action status first second ++ tail⟩ =
-      .ok ⟨action, first, if action ∈ snpActions then second else []⟩ := by
+      if tail = [] then .ok ⟨action, first, if action ∈ snpActions then second else []⟩
+      else .error .value := by
   rw [FileStoreRequestTlv.fromTlv_eq]
   simp only [ne_eq, not_true_eq_false, ↓reduceIte,
     commonUnpacker_pack action status first second tail ha hs h1 h2 u1 u2, bind_ok]
-  by_cases h : action ∈ snpActions <;> simp [h]
+  cases tail with
+  | nil => by_cases h : action ∈ snpActions <;> simp [h]
+  | cons a r => simp
+
+/-- `from_tlv` on a well-formed request value (any status nibble) -/
+theorem FileStoreRequestTlv.fromTlv_pack (action status : Nat) (first second : Bytes)
+    (ha : action ∈ actionCodes) (hs : status < 16) (h1 : first.length ≤ 255)
+    (h2 : second.length ≤ 255) (u1 : utf8Valid first = true) (u2 : utf8Valid second = true) :
+    FileStoreRequestTlv.fromTlv ⟨tFsRequest, fsValue action status first second⟩ =
+      .ok ⟨action, first, if action ∈ snpActions then second else []⟩ := by
+  have := FileStoreRequestTlv.fromTlv_pack_tail action status first second [] ha hs h1 h2 u1 u2
+  simpa using this
+
+/-- octets after the names inside the value field are refused (`ValueError`) -/
+theorem FileStoreRequestTlv.fromTlv_slack (action status : Nat) (first second tail : Bytes)
+    (ha : action ∈ actionCodes) (hs : status < 16) (h1 : first.length ≤ 255)
+    (h2 : second.length ≤ 255) (u1 : utf8Valid first = true) (u2 : utf8Valid second = true)
+    (ht : tail ≠ []) :
+    FileStoreRequestTlv.fromTlv ⟨tFsRequest, fsValue action status first second ++ tail⟩ =
+      .error .value := by
+  rw [FileStoreRequestTlv.fromTlv_pack_tail action status first second tail ha hs h1 h2 u1 u2]
+  simp [ht]
 
 /-! ### response -/
 
@@ -436,11 +464,12 @@ theorem FileStoreResponseTlv.fromTlv_eq (t : CfdpTlv) :
       else commonUnpacker t.value >>= fun c =>
         enumOf statusCodesNat (c.action * 16 + c.status) >>= fun st =>
         CfdpLv.unpack (t.value.drop c.idx) >>= fun m =>
-        .ok ⟨c.action, (st : Int), c.first, c.second.getD [], m⟩ := by
+        if c.idx + m.packetLen ≠ t.value.length then .error .value
+        else .ok ⟨c.action, (st : Int), c.first, c.second.getD [], m⟩ := by
   unfold FileStoreResponseTlv.fromTlv
   by_cases h : t.ttype ≠ tFsResponse
   · simp [h, throw, throwThe, MonadExceptOf.throw, bind, Except.bind]
-  · simp only [h, ↓reduceIte, bind, Except.bind, pure, Except.pure]
+  · simp only [h, ↓reduceIte, bind, Except.bind, pure, Except.pure, throw, throwThe, MonadExceptOf.throw]
     cases commonUnpacker t.value with
     | error e => rfl
     | ok c =>
@@ -451,7 +480,10 @@ theorem FileStoreResponseTlv.fromTlv_eq (t : CfdpTlv) :
         simp only []
         cases CfdpLv.unpack (t.value.drop c.idx) with
         | error e => rfl
-        | ok m => cases c.second <;> simp
+        | ok m =>
+          by_cases hi : c.idx + m.packetLen ≠ t.value.length
+          · simp [hi]
+          · cases c.second <;> simp [hi]
 
 theorem FileStoreResponseTlv.unpack_bind (d : Bytes) :
     FileStoreResponseTlv.unpack d = CfdpTlv.unpack d >>= FileStoreResponseTlv.fromTlv := rfl
@@ -503,22 +535,50 @@ theorem FileStoreResponseTlv.pack_length (r : FileStoreResponseTlv) (b : Bytes) 
         unfold FileStoreResponseTlv.packetLen; omega
       · rw [CfdpTlv.new_err (by omega)] at h; cases h
 
-/-- `from_tlv` on a well-formed response value (any trailing octets) -/
-theorem FileStoreResponseTlv.fromTlv_pack (action status : Nat) (first second msg tail : Bytes)
+/-- `from_tlv` on a well-formed response value followed, inside the value field, by `tail`:
+    accepted exactly when there is nothing after the filestore-message LV -/
+theorem FileStoreResponseTlv.fromTlv_pack_tail (action status : Nat) (first second msg tail : Bytes)
     (ha : action ∈ actionCodes) (hs : status < 16) (hst : action * 16 + status ∈ statusCodesNat)
     (h1 : first.length ≤ 255) (h2 : second.length ≤ 255) (hm : msg.length ≤ 255)
     (u1 : utf8Valid first = true) (u2 : utf8Valid second = true) :
     FileStoreResponseTlv.fromTlv
         ⟨tFsResponse, fsValue action status first second ++ (u8 msg.length :: (msg ++ tail))⟩ =
-      .ok ⟨action, ((action * 16 + status : Nat) : Int), first,
-           if action ∈ snpActions then second else [], ⟨msg⟩⟩ := by
+      if tail = [] then
+        .ok ⟨action, ((action * 16 + status : Nat) : Int), first,
+             if action ∈ snpActions then second else [], ⟨msg⟩⟩
+      else .error .value := by
   rw [FileStoreResponseTlv.fromTlv_eq]
   simp only [ne_eq, not_true_eq_false, ↓reduceIte,
     commonUnpacker_pack action status first second _ ha hs h1 h2 u1 u2, bind_ok]
   have hen : enumOf statusCodesNat (action * 16 + status) = .ok (action * 16 + status) := by
     simp [enumOf, hst]
   rw [hen, bind_ok, List.drop_left' rfl, CfdpLv.unpack_pack_append msg tail hm, bind_ok]
-  by_cases h : action ∈ snpActions <;> simp [h]
+  cases tail with
+  | nil => by_cases h : action ∈ snpActions <;> simp [h, CfdpLv.packetLen]
+  | cons a r => simp [CfdpLv.packetLen]
+
+/-- `from_tlv` on a well-formed response value -/
+theorem FileStoreResponseTlv.fromTlv_pack (action status : Nat) (first second msg : Bytes)
+    (ha : action ∈ actionCodes) (hs : status < 16) (hst : action * 16 + status ∈ statusCodesNat)
+    (h1 : first.length ≤ 255) (h2 : second.length ≤ 255) (hm : msg.length ≤ 255)
+    (u1 : utf8Valid first = true) (u2 : utf8Valid second = true) :
+    FileStoreResponseTlv.fromTlv
+        ⟨tFsResponse, fsValue action status first second ++ (u8 msg.length :: msg)⟩ =
+      .ok ⟨action, ((action * 16 + status : Nat) : Int), first,
+           if action ∈ snpActions then second else [], ⟨msg⟩⟩ := by
+  have := FileStoreResponseTlv.fromTlv_pack_tail action status first second msg [] ha hs hst h1 h2 hm u1 u2
+  simpa using this
+
+/-- octets after the filestore-message LV inside the value field are refused (`ValueError`) -/
+theorem FileStoreResponseTlv.fromTlv_slack (action status : Nat) (first second msg tail : Bytes)
+    (ha : action ∈ actionCodes) (hs : status < 16) (hst : action * 16 + status ∈ statusCodesNat)
+    (h1 : first.length ≤ 255) (h2 : second.length ≤ 255) (hm : msg.length ≤ 255)
+    (u1 : utf8Valid first = true) (u2 : utf8Valid second = true) (ht : tail ≠ []) :
+    FileStoreResponseTlv.fromTlv
+        ⟨tFsResponse, fsValue action status first second ++ (u8 msg.length :: (msg ++ tail))⟩ =
+      .error .value := by
+  rw [FileStoreResponseTlv.fromTlv_pack_tail action status first second msg tail ha hs hst h1 h2 hm u1 u2]
+  simp [ht]
 
 /-! ## `Documented` for every decoder (C10) and the type guarantee (C08) -/
 
@@ -539,14 +599,16 @@ theorem FileStoreRequestTlv.fromTlv_documented (t : CfdpTlv) :
     Documented (FileStoreRequestTlv.fromTlv t) := by
   rw [FileStoreRequestTlv.fromTlv_eq]
   exact Documented.ite (Documented.err rfl)
-    (Documented.bind (commonUnpacker_documented _) fun _ _ => Documented.ok _)
+    (Documented.bind (commonUnpacker_documented _) fun _ _ =>
+      Documented.ite (Documented.err rfl) (Documented.ok _))
 theorem FileStoreResponseTlv.fromTlv_documented (t : CfdpTlv) :
     Documented (FileStoreResponseTlv.fromTlv t) := by
   rw [FileStoreResponseTlv.fromTlv_eq]
   refine Documented.ite (Documented.err rfl) ?_
   refine Documented.bind (commonUnpacker_documented _) fun c _ => ?_
   refine Documented.bind (enumOf_documented _ _) fun st _ => ?_
-  exact Documented.bind (CfdpLv.unpack_documented _) fun m _ => Documented.ok _
+  exact Documented.bind (CfdpLv.unpack_documented _) fun m _ =>
+    Documented.ite (Documented.err rfl) (Documented.ok _)
 
 theorem EntityIdTlv.unpack_documented (d : Bytes) : Documented (EntityIdTlv.unpack d) := by
   rw [EntityIdTlv.unpack_bind]
@@ -575,6 +637,100 @@ theorem bind_unpack_append {α : Type} (f : CfdpTlv → Py α) (d rest : Bytes) 
   cases ht : CfdpTlv.unpack d with
   | error e => rw [ht] at h; cases h
   | ok t => rw [CfdpTlv.unpack_append d rest t ht]; rw [ht] at h; exact h
+
+/-! ## accepted filestore TLVs report exactly the declared TLV length -/
+
+/-- `_common_unpacker` stays inside the value field, and the index it returns is what
+    `common_packet_len()` computes from the decoded names (minus the two TLV header octets) -/
+theorem commonUnpacker_idx_spec {v : Bytes} {c : Common} (h : commonUnpacker v = .ok c) :
+    c.idx ≤ v.length ∧ commonPacketLen c.action c.first (c.second.getD []) = 2 + c.idx := by
+  cases v with
+  | nil => rw [commonUnpacker_nil] at h; cases h
+  | cons b0 r =>
+    rw [commonUnpacker_cons] at h
+    cases ha : enumOf actionCodes (b0.toNat / 16) with
+    | error e => simp [ha, bind, Except.bind] at h
+    | ok action =>
+      cases h1 : CfdpLv.unpack r with
+      | error e => simp [ha, h1, bind, Except.bind] at h
+      | ok lv1 =>
+        obtain ⟨_, hle1, _⟩ := CfdpLv.unpack_spec r lv1 h1
+        cases hu1 : decodeUtf8 lv1.value with
+        | error e => simp [ha, h1, hu1, bind, Except.bind] at h
+        | ok first =>
+          have hf : first = lv1.value := by
+            unfold decodeUtf8 at hu1
+            split at hu1
+            · exact (Except.ok.inj hu1).symm
+            · cases hu1
+          simp only [ha, h1, hu1, bind, Except.bind] at h
+          by_cases hs : action ∈ snpActions
+          · simp only [hs, ↓reduceIte] at h
+            cases h2 : CfdpLv.unpack (r.drop lv1.packetLen) with
+            | error e => simp [h2] at h
+            | ok lv2 =>
+              obtain ⟨_, hle2, _⟩ := CfdpLv.unpack_spec _ lv2 h2
+              cases hu2 : decodeUtf8 lv2.value with
+              | error e => simp [h2, hu2] at h
+              | ok second =>
+                have hg : second = lv2.value := by
+                  unfold decodeUtf8 at hu2
+                  split at hu2
+                  · exact (Except.ok.inj hu2).symm
+                  · cases hu2
+                simp only [h2, hu2, pure, Except.pure] at h
+                rw [← Except.ok.inj h]
+                simp only [List.length_drop] at hle2
+                simp only [commonPacketLen, hs, ↓reduceIte, Option.getD_some, hf, hg, CfdpLv.packetLen,
+                  List.length_cons] at hle1 hle2 ⊢
+                omega
+          · simp only [hs, ↓reduceIte, pure, Except.pure] at h
+            rw [← Except.ok.inj h]
+            simp only [commonPacketLen, hs, ↓reduceIte, hf, CfdpLv.packetLen, List.length_cons] at hle1 ⊢
+            omega
+
+/-- **every accepted filestore request reports the declared TLV length** (all inputs) -/
+theorem FileStoreRequestTlv.fromTlv_len_exact {t : CfdpTlv} {x : FileStoreRequestTlv}
+    (h : FileStoreRequestTlv.fromTlv t = .ok x) : x.packetLen = t.packetLen := by
+  rw [FileStoreRequestTlv.fromTlv_eq] at h
+  split at h
+  · cases h
+  · cases hc : commonUnpacker t.value with
+    | error e => simp [hc, bind, Except.bind] at h
+    | ok c =>
+      simp only [hc, bind, Except.bind] at h
+      obtain ⟨_, hl⟩ := commonUnpacker_idx_spec hc
+      split at h
+      · cases h
+      · rename_i hi
+        rw [← Except.ok.inj h]
+        simp only [FileStoreRequestTlv.packetLen, hl, CfdpTlv.packetLen]
+        omega
+
+/-- **every accepted filestore response reports the declared TLV length** (all inputs) -/
+theorem FileStoreResponseTlv.fromTlv_len_exact {t : CfdpTlv} {x : FileStoreResponseTlv}
+    (h : FileStoreResponseTlv.fromTlv t = .ok x) : x.packetLen = t.packetLen := by
+  rw [FileStoreResponseTlv.fromTlv_eq] at h
+  split at h
+  · cases h
+  · cases hc : commonUnpacker t.value with
+    | error e => simp [hc, bind, Except.bind] at h
+    | ok c =>
+      simp only [hc, bind, Except.bind] at h
+      obtain ⟨_, hl⟩ := commonUnpacker_idx_spec hc
+      cases hst : enumOf statusCodesNat (c.action * 16 + c.status) with
+      | error e => simp [hst] at h
+      | ok st =>
+        cases hm : CfdpLv.unpack (t.value.drop c.idx) with
+        | error e => simp [hst, hm] at h
+        | ok m =>
+          simp only [hst, hm] at h
+          split at h
+          · cases h
+          · rename_i hi
+            rw [← Except.ok.inj h]
+            simp only [FileStoreResponseTlv.packetLen, hl, CfdpTlv.packetLen]
+            omega
 
 /-- **prefix stability of every concrete decoder** (C09): octets after the TLV never matter -/
 theorem EntityIdTlv.unpack_append (d rest : Bytes) (x : EntityIdTlv) (h : EntityIdTlv.unpack d = .ok x) :
